@@ -13,7 +13,7 @@ use owlchess::{Board, RawBoard};
 use serde_json::{json, Value};
 use std::str::FromStr;
 
-pub fn check_position(b: &Board, r: &RefPos, stats: &mut Stats) -> CheckResult {
+pub fn check_position(b: &Board, r: &RefPos, stats: &mut Stats, count: bool) -> CheckResult {
     let text = b.as_fen();
     ensure!(text == b.to_string() && text == b.raw().as_fen() && text == b.raw().to_string(), "as_fen / Display of Board and RawBoard disagree");
     // canonical grammar + independent reader
@@ -44,17 +44,52 @@ pub fn check_position(b: &Board, r: &RefPos, stats: &mut Stats) -> CheckResult {
     stats.label_if(r.half >= 10 || r.full >= 10, "multi_digit_counter");
     stats.label_if(r.ep.map_or(false, |s| file_of(s) == 0), "mark_on_a_file");
     stats.label_if(r.ep.map_or(false, |s| file_of(s) == 7), "mark_on_h_file");
-    if r.ep.is_some() || empty_rank || full_rank || r.half >= 10 || r.full >= 10 {
+    if count && (r.ep.is_some() || empty_rank || full_rank || r.half >= 10 || r.full >= 10) {
         stats.nontrivial(&(r.rep_key(), r.half, r.full));
     }
     Ok(())
 }
 
+fn gen_case(cur: &mut Cursor) -> Value {
+    let mut case = gen_pos_case(cur);
+    case["kids"] = json!([cur.u16(), cur.u16()]);
+    case
+}
+
+/// A move that changes more than two squares or a non-placement field.
+fn special(p: &RefPos, m: &RefMove) -> bool {
+    !matches!(m.kind, Kind::Simple) || m.man.1 == Pc::K || m.man.1 == Pc::R || matches!(p.b[m.to as usize], Some((_, Pc::R)))
+}
+
 fn check_case(case: &Value, stats: &mut Stats) -> CheckResult {
-    match case_board(case, stats)? {
-        Some((b, r)) => check_position(&b, &r, stats),
-        None => Ok(()),
+    let (b, r) = match case_board(case, stats)? {
+        Some(x) => x,
+        None => return Ok(()),
+    };
+    check_position(&b, &r, stats, true)?;
+    // positions that only make_move builds (not the validation gate): one special and one arbitrary successor
+    let legal = r.legal();
+    let kids: Vec<usize> = case["kids"].as_array().map(|a| a.iter().map(|x| x.as_u64().unwrap_or(0) as usize).collect()).unwrap_or_default();
+    let specials: Vec<RefMove> = legal.iter().filter(|m| special(&r, m)).cloned().collect();
+    for (i, pool) in [&specials, &legal].into_iter().enumerate() {
+        if pool.is_empty() || i >= kids.len() {
+            continue;
+        }
+        let m = pool[(kids[i] * pool.len()) >> 16];
+        let lm = mv_to_lib(&m).map_err(|e| Failure::new(format!("harness: {}", e)))?;
+        let child = match b.make_move(lm) {
+            Ok(c) => c,
+            Err(e) => fail!("make_move refuses the legal move {} in {}: {}", mv_desc(&lm), r.fen(), e),
+        };
+        let rc = r.apply(&m);
+        stats.label("successor_position");
+        stats.label_if(matches!(m.kind, Kind::Promo(_)), "successor_by_promotion");
+        stats.label_if(m.man.1 == Pc::K && r.is_capture(&m), "successor_by_king_capture");
+        if let Err(f) = check_position(&child, &rc, stats, false) {
+            return Err(Failure::new(format!("after {} from {}: {}", mv_desc(&lm), r.fen(), f.msg)));
+        }
     }
+    Ok(())
 }
 
 fn raw_check(case: &Value, stats: &mut Stats) -> CheckResult {
@@ -187,9 +222,11 @@ fn initial_driver(_ctx: &RunCtx, stats: &mut Stats, rep: &mut Reporter) {
 pub fn property() -> Property {
     Property {
         id: "C08",
-        rule: "positions: valid positions (17 sources): Board::from_fen(b.as_fen()) equals b in all six fields and in derived state; the text \
+        rule: "positions: valid positions (19 sources): Board::from_fen(b.as_fen()) equals b in all six fields and in derived state; the text \
                passes a strict canonical-FEN reader written independently (six fields, single spaces, no adjacent digits, KQkq order, plain \
-               decimal counters) which must yield the reference position, and equals the reference writer's text. raw_boards: unvalidated \
+               decimal counters) which must yield the reference position, and equals the reference writer's text; the same for two successors \
+               built by make_move (one special move - promotion, castling, en passant, king or rook move, rook capture - and one arbitrary), \
+               which reach positions the validation gate never built. raw_boards: unvalidated \
                boards (5 sources) with a rank-consistent mark round-trip through RawBoard. texts: grammar-built FEN variants ('.' cells, \
                split runs, reversed rights, +5 / 007 counters, 4-7 fields), mutated canonical FENs and alphabet strings: for accepted text \
                parse(format(parse(s))) == parse(s) and format is a fixed point; canonical texts must be accepted with the independent \
@@ -208,10 +245,10 @@ pub fn property() -> Property {
             },
             SubCheck {
                 name: "positions",
-                driver: Driver::Generated { gen: gen_pos_case, genome_len: 192, quick: 2_400_000, thorough: 19_200_000 },
+                driver: Driver::Generated { gen: gen_case, genome_len: 200, quick: 2_400_000, thorough: 19_200_000 },
                 check: check_case,
                 configs: Configs::ReleaseOnly,
-                required: &["ep_mark", "mark_on_a_file", "mark_on_h_file", "empty_rank", "full_rank", "multi_digit_counter", "black_to_move", "castling_right"],
+                required: &["ep_mark", "mark_on_a_file", "mark_on_h_file", "empty_rank", "full_rank", "multi_digit_counter", "black_to_move", "castling_right", "successor_position", "successor_by_promotion", "successor_by_king_capture"],
                 regressions: &[],
                 exhaustive: false,
             },
